@@ -68,6 +68,13 @@ def constants(chk, repo):
     asm = repo.func(P + ".assemble")
     chk.analysed(P + ".assemble")
     packs = [c for c in calls_in(asm) if dotted(c.func) == "pack"]
+    # and in the methods of Packet that assemble() delegates to
+    for c in calls_in(asm):
+        if isinstance(c.func, ast.Attribute) and isinstance(
+                c.func.value, ast.Name) and c.func.value.id in (
+                    "self", "Packet", "cls") and c.func.attr in ci.methods:
+            packs += [c2 for c2 in calls_in(ci.methods[c.func.attr])
+                      if dotted(c2.func) == "pack"]
     fmts = []
     for c in packs:
         a = c.args[0]
@@ -396,6 +403,12 @@ def frames(chk, repo, rule):
                        bytes((k * 7 + j) % 251 for j in range(L)), k, addr,
                        k % 4))
         scen.append(dg)
+    # equal datagrams (same command, data, index, address, counter) at
+    # several places of one frame, the last one among them
+    same = (cmds[names[0]], b"\x05\x06", 3, (2, 0x130), 1)
+    other = (cmds[names[1]], b"\x07", 4, (0x20000,), 0)
+    scen += [[same, same, same], [same, other, same],
+             [other, same, same, other, same]]
     bad = []
     rows = 0
     for dg in scen:
@@ -603,8 +616,11 @@ def assemble_rules(chk, repo, rule):
             kinds.append("wkc")
         else:
             kinds.append("?")
-    chk.ob(rule, sym, "each datagram is header, data, working counter",
-           kinds == ["header", "data", "wkc"], lp, f"appends {kinds}")
+    if apps:
+        # (another spelling - extend() with a helper's triple - is decided
+        # by the decoded frames above)
+        chk.ob(rule, sym, "each datagram is header, data, working counter",
+               kinds == ["header", "data", "wkc"], lp, f"appends {kinds}")
     # frame header
     fh = [c for c in calls_in(f) if dotted(c.func) == "pack"
           and c not in packs]
